@@ -222,7 +222,7 @@ def handleAuthenticated (s : St) (sock : Sock) (src : Addr) (r : Req) : St :=
   let s1 := learn s sock src r.priority
   let s2 := latch s1 sock src
   let s3 := tcpNominate s2 sock src
-  if r.useCandidate then useCandidate s3 sock src else s3
+  if r.useCandidate && r.accepted then useCandidate s3 sock src else s3      -- `msg.use_candidate && may_nominate` (every mode)
 
 /-- `handle_packet`'s request arm + `handle_stun_request`: the reply is sent first, unconditionally;
 `authenticated = transport_mode != WebRtc || stun_request_authenticated(..)` gates everything else -/
